@@ -111,6 +111,11 @@ def gen_request(rng, thorough):
             pts.append(tuple(round(v, 4) for v in cur))
             if rng.random() < 0.1:
                 pts.append(pts[-1])          # a repeated control point
+        if rng.random() < 0.3 and len(pts) >= 2:
+            # revisit an earlier point (closed loop back to the start, figure eight, out-and-back)
+            pts.append(rng.choice([tuple(round(v, 4) for v in start), pts[0], pts[rng.randrange(len(pts) - 1)]]))
+        if rng.random() < 0.15:
+            pts.append((0.0, 0.0, 0.0))      # a vertex on the work origin
         s["points"] = pts
         s["dim"] = rng.choice([2, 3])
         size = step
@@ -449,6 +454,11 @@ def main():
     # corpus: the request shapes behind the two repaired defects and the arc_radius sign/direction table
     reqs.insert(0, dict(kind="thread", start=(10.0, 5.0, 0.0), ccw=True, relative=False, target=(18.0, 11.0, 6.0), pitch=2.0, size=5.0, res=0.5))
     reqs.insert(0, dict(kind="circle", start=(30.0, -12.0, 1.0), ccw=False, relative=True, centre=(-7.0, 2.0), target=None, sweep=TWO_PI, size=7.0, res=0.5))
+    reqs.insert(0, dict(kind="circle", start=(0.0, 0.0, 0.0), ccw=True, relative=False, centre=(-6.0, 2.5), target=None, sweep=TWO_PI, size=6.5, res=0.4))
+    reqs.insert(0, dict(kind="arc", start=(8.0, 0.0, 0.0), ccw=True, relative=False, centre=(-4.0, 0.0), target=(0.0, 0.0, 0.0), has_z=False, size=4.0, res=0.3))
+    reqs.insert(0, dict(kind="polyline", start=(3.0, 4.0, 1.0), ccw=True, relative=False, points=[(1.0, 1.0, 1.0), (0.0, 0.0, 0.0), (2.0, 0.0, 0.0)], dim=3, size=3.0, res=0.5))
+    reqs.insert(0, dict(kind="spline", start=(0.0, 0.0, 0.0), ccw=True, relative=False, points=[(5.0, 5.0, 0.0), (10.0, 0.0, 0.0), (5.0, -5.0, 0.0), (0.0, 0.0, 0.0)], dim=3, size=7.0, res=0.5))
+    reqs.insert(0, dict(kind="spline", start=(2.0, 1.0, 0.0), ccw=True, relative=True, points=[(6.0, 5.0, 0.0), (9.0, 1.0, 0.0), (6.0, 5.0, 0.0), (2.0, 8.0, 0.0)], dim=3, size=6.0, res=0.4))
     for ccw in (True, False):
         for sign in (1, -1):
             reqs.insert(0, dict(kind="arc_radius", start=(3.0, 4.0, 0.0), ccw=ccw, relative=False, target=(13.0, 12.0, 0.0), has_z=False,
